@@ -94,6 +94,9 @@ pub mod probe {
         pub fn add(_env: Env, a: i128, b: i128) -> i128 {
             a + b
         }
+        pub fn sub(_env: Env, a: i128, b: i128) -> i128 {
+            a - b
+        }
         pub fn record(env: Env, n: u32, tag: Bytes) -> u32 {
             let c: u32 = env.storage().instance().get(&Symbol::new(&env, "count")).unwrap_or(0);
             env.storage().instance().set(&Symbol::new(&env, "count"), &(c + 1));
